@@ -240,6 +240,16 @@ class Ctx:
                                       "abstract_transitions": _a.STATS["transitions"]}
         except Exception:  # pragma: no cover
             pass
+        try:
+            from . import normalize as _n, inline as _i, loader as _l
+            # what the loader rewrote before any rule looked at the tree (exact rewrites; counts per kind), which helpers it
+            # substituted back into their callers, and which calls stayed opaque (no verdict is drawn in those functions)
+            cov["normal_form"] = {"rewrites": {k: v for k, v in sorted(_n.STATS.items()) if isinstance(v, int) and v},
+                                  "helpers_inlined": sorted(_i.STATS.get("helpers", ())), "calls_inlined": _i.STATS.get("inlined_calls", 0),
+                                  "functions_with_opaque_helper_calls": {path: [{"function": f, "helpers": h} for _, _, f, h in rows]
+                                                                         for path, rows in _l.OPAQUE.items() if rows}}
+        except Exception:  # pragma: no cover
+            pass
         cov.update(self.extra)
         if error is not None:
             cov["analysis_error"] = str(error)
